@@ -276,6 +276,9 @@ type streamsRec struct {
 	ls   map[uint64]*lsState
 	nev  map[string]int
 	muts int
+
+	mutAt     time.Time
+	maxReapMs int64
 }
 
 func (t *streamsRec) install() {
@@ -315,8 +318,16 @@ func (t *streamsRec) install() {
 		}
 		t.mu.Lock()
 		t.nev[e.Ev]++
-		if e.Ev == "reap.mutate" {
+		switch e.Ev {
+		case "reap.mutate":
 			t.muts++
+			t.mutAt = time.Now()
+		case "reap.done":
+			d := time.Since(t.mutAt).Milliseconds()
+			m["dur_ms"] = d
+			if d > t.maxReapMs {
+				t.maxReapMs = d
+			}
 		}
 		t.mu.Unlock()
 		t.w.Write(m)
@@ -616,7 +627,9 @@ func (r *streamsRun) consume(rng *rand.Rand, o *openStream, mode int) {
 
 // finish brings the store to quiescence and reports anything that stays stuck.
 func (r *streamsRun) finish() {
-	long := 5*time.Second + 4*r.timeout
+	// "should complete" is judged generously: a reap fsyncs, and on a loaded machine that takes long
+	// (seen: 19 s between reap.mutate and reap.done at a load average of 55)
+	long := 90*time.Second + 4*r.timeout
 	// every streamer ever opened must have been released (by Close or by the idle timer)
 	ok := waitUntil(long, func() bool {
 		all := true
@@ -640,7 +653,7 @@ func (r *streamsRun) finish() {
 			emit("h", "h.reaperr", "err", err.Error())
 		}
 		if ok = err == nil || !strings.Contains(err.Error(), "MSRW conflict"); !ok {
-			time.Sleep(4 * time.Millisecond)
+			time.Sleep(10 * time.Millisecond)
 		}
 	}
 	if !ok {
@@ -713,10 +726,13 @@ func streamsFree(rec *streamsRec, st *streamsStats, root string, n int) error {
 		}()
 	}
 	// short anonymous readers and explicit reaps
+	var bg sync.WaitGroup
 	for c := 0; c < 2; c++ {
 		seed := rng.Int63()
 		xr := c == 0
+		bg.Add(1)
 		go func() {
+			defer bg.Done()
 			g := rand.New(rand.NewSource(seed))
 			for {
 				select {
@@ -749,7 +765,7 @@ func streamsFree(rec *streamsRec, st *streamsStats, root string, n int) error {
 	}
 	wg.Wait()
 	close(stop)
-	time.Sleep(time.Millisecond)
+	bg.Wait()
 	if e, _ := firstErr.Load().(error); e != nil {
 		return e
 	}
@@ -890,7 +906,7 @@ func streamsDirected(rec *streamsRec, st *streamsStats, root string, n int, whic
 		a.read(200)
 		nm := rec.count("reap.done")
 		release()
-		if !waitUntil(5*time.Second+4*T, func() bool { return rec.count("reap.done") > nm }) {
+		if !waitUntil(90*time.Second+4*T, func() bool { return rec.count("reap.done") > nm }) {
 			emit("h", "h.stuck", "what", "reaper-behind-stalled-stream")
 			st.add(func(s *streamsStats) { s.Stuck++ })
 		}
@@ -1046,8 +1062,8 @@ func streamsSched(rec *streamsRec, st *streamsStats, root string, n int, sched [
 		}
 	}()
 	var xwg sync.WaitGroup
-	for _, step := range sched {
-		op, arg, _ := strings.Cut(step, ":")
+	for i := 0; i < len(sched); i++ {
+		op, arg, _ := strings.Cut(sched[i], ":")
 		smu.Lock()
 		sl := slots[arg]
 		smu.Unlock()
@@ -1077,7 +1093,32 @@ func streamsSched(rec *streamsRec, st *streamsStats, root string, n int, sched [
 			}
 		case "C":
 			if sl != nil && !sl.done {
-				sl.o.rc.Close()
+				// a Close directly followed by an Open is a hand-off: the new reader arrives before a
+				// writer woken by this Close can re-check (one P, nothing in between, no directory scan)
+				var next string
+				if i+1 < len(sched) && strings.HasPrefix(sched[i+1], "O:") {
+					next = strings.TrimPrefix(sched[i+1], "O:")
+				}
+				smu.Lock()
+				nsl := slots[next]
+				smu.Unlock()
+				if next != "" && next != arg && (nsl == nil || nsl.done) {
+					prevP := runtime.GOMAXPROCS(1)
+					sl.o.rc.Close()
+					o := r.openID(sl.o.snap)
+					runtime.GOMAXPROCS(prevP)
+					if o != nil {
+						smu.Lock()
+						slots[next] = &slot{o: o}
+						smu.Unlock()
+						st.add(func(s *streamsStats) { s.Handoffs++ })
+					} else {
+						st.add(func(s *streamsStats) { s.HandoffLost++ })
+					}
+					i++
+				} else {
+					sl.o.rc.Close()
+				}
 				smu.Lock()
 				end := sl.end
 				sl.done = true
@@ -1198,8 +1239,8 @@ func streamsTrace(args []string) error {
 	st.Events = w.n
 	st.Mutations = rec.muts
 	fmt.Printf("{\"runs\":%d,\"scheds\":%d,\"directed\":%d,\"events\":%d,\"streams\":%d,\"complete\":%d,\"timeouts\":%d,\"abandoned\":%d,\"races\":%d,\"doubles\":%d,\"early\":%d,"+
-		"\"list_conflicts\":%d,\"open_conflicts\":%d,\"open_notfound\":%d,\"sinks\":%d,\"xreap_ok\":%d,\"xreap_conflict\":%d,\"reap_mutations\":%d,\"handoffs\":%d,\"handoff_lost\":%d,\"stuck\":%d,\"mismatch\":%d}\n",
+		"\"list_conflicts\":%d,\"open_conflicts\":%d,\"open_notfound\":%d,\"sinks\":%d,\"xreap_ok\":%d,\"xreap_conflict\":%d,\"reap_mutations\":%d,\"handoffs\":%d,\"handoff_lost\":%d,\"stuck\":%d,\"mismatch\":%d,\"max_reap_ms\":%d}\n",
 		st.Runs, st.Scheds, st.Directed, st.Events, st.Streams, st.Complete, st.Timeouts, st.Abandoned, st.Races, st.Doubles, st.Early,
-		st.ListConflicts, st.OpenConflicts, st.OpenNotFound, st.Sinks, st.XReapOK, st.XReapConflict, st.Mutations, st.Handoffs, st.HandoffLost, st.Stuck, st.Mismatch)
+		st.ListConflicts, st.OpenConflicts, st.OpenNotFound, st.Sinks, st.XReapOK, st.XReapConflict, st.Mutations, st.Handoffs, st.HandoffLost, st.Stuck, st.Mismatch, rec.maxReapMs)
 	return nil
 }
